@@ -3,7 +3,7 @@ use crate::rng::Rng;
 use std::collections::BTreeMap;
 
 #[derive(Clone, Copy, PartialEq, Debug)]
-pub enum K { Node, Syn, Str, Int, Bool, ListSyn, ListInt, OptSyn }
+pub enum K { Node, Syn, Str, Int, Bool, ListSyn, ListInt, OptSyn, SetVal }
 
 #[derive(Clone)]
 pub struct Var { pub name: String, pub kind: K, pub mutable: bool, pub local: bool }
@@ -135,10 +135,17 @@ impl<'a> Gen<'a> {
                 2 => if lib { format!("(concat {} {})", self.expr(K::ListInt, d, local), self.expr(K::ListInt, d, local)) } else { "[1, 2]".into() },
                 _ => { let v = self.fresh("c"); let l = self.expr(K::ListSyn, d, true); self.vars.push(vec![Var { name: v.clone(), kind: K::Syn, mutable: false, local: true }]); let e = self.expr(K::Int, d, local); self.vars.pop(); format!("[ {} for {} in {} ]", e, v, l) }
             },
+            // set literals and set comprehensions: duplicates collapse, elements are ordered by value (mixed types rarely)
+            K::SetVal => match self.rng.below(if depth > 2 { 2 } else { 4 }) {
+                0 => { let n = self.rng.below(4); format!("{{{}}}", (0..n).map(|_| self.expr(K::Int, d + 1, local)).collect::<Vec<_>>().join(", ")) }
+                1 => if self.rng.chance(30) { "{1, \"a\", #true, #null, 1}".to_string() } else { format!("{{{}, {}}}", self.expr(K::Str, d + 1, local), self.expr(K::Str, d + 1, local)) },
+                2 => { let v = self.fresh("c"); let l = self.expr(K::ListInt, d, true); self.vars.push(vec![Var { name: v.clone(), kind: K::Int, mutable: false, local: true }]); let ek = if self.rng.chance(50) { K::Int } else { K::Bool }; let e = self.expr(ek, d, local); self.vars.pop(); format!("{{ {} for {} in {} }}", e, v, l) }
+                _ => { let v = self.fresh("c"); let l = self.expr(K::ListSyn, d, true); self.vars.push(vec![Var { name: v.clone(), kind: K::Syn, mutable: false, local: true }]); let e = self.expr(K::Str, d, local); self.vars.pop(); format!("{{ {} for {} in {} }}", e, v, l) }
+            },
             K::OptSyn => { let cs = self.caps_of(K::OptSyn); if cs.is_empty() { "#null".into() } else { format!("@{}", self.rng.pick(&cs)) } }
         }
     }
-    fn any_kind(&mut self) -> K { *self.rng.pick(&[K::Node, K::Syn, K::Str, K::Int, K::Bool, K::ListInt, K::ListSyn, K::Str, K::Int]) }
+    fn any_kind(&mut self) -> K { *self.rng.pick(&[K::Node, K::Syn, K::Str, K::Int, K::Bool, K::ListInt, K::ListSyn, K::Str, K::Int, K::SetVal]) }
     fn attr_value_kind(&mut self) -> K {
         if self.opts.render_nodes { self.any_kind() } else { self.any_kind() }
     }
